@@ -5,6 +5,7 @@
 import NextestModel.Lemmas.Dispatcher
 import NextestModel.Lemmas.Junit
 import NextestModel.Lemmas.Attempts
+import NextestModel.Model.XmlText
 namespace NextestModel.C17
 open NextestModel.Dispatcher
 
@@ -485,5 +486,91 @@ theorem finished_statuses_wellformed (p : Classify.Policy) (env : Attempts.Env) 
         exact (Attempts.loop_discipline _ env _ 0 [] _ rest hl).1 k hk
 
 end junit
+
+section xmltext
+open NextestModel.XmlText
+
+/-- a character that neither filter removes is an XML 1.0 `Char` (both filters are the regenerated tables) -/
+private theorem valid_of (c : Char) (h1 : inRanges Gen.xmlStringStripped c.toNat = false)
+    (h2 : Gen.junitNoncharsTested.contains c.toNat = false) : XmlChar c := by
+  have hv := c.valid
+  simp only [UInt32.isValidChar, Nat.isValidChar] at hv
+  have hv' : c.toNat < 0xD800 ∨ (0xDFFF < c.toNat ∧ c.toNat < 0x110000) := hv
+  simp [inRanges, Gen.xmlStringStripped] at h1
+  simp [Gen.junitNoncharsTested] at h2
+  unfold XmlChar
+  omega
+
+/-- **"arbitrary test output keeps the XML well-formed"**: every character of every text nextest hands to the JUnit serializer
+    (`xml_string`: message, description, system-out, system-err of a testcase or a rerun) is a `Char` of XML 1.0 §2.2 — whatever
+    the output was, and whatever the ANSI stripper does as long as it only removes characters.  (What is left for the
+    serializer is escaping `<`, `&`, `]]>`; that part is third-party and exercised, not modelled.) -/
+theorem xml_text_valid (ansi : List Char → List Char) (hsub : ∀ l c, c ∈ ansi l → c ∈ l) (s : List Char) :
+    ∀ c ∈ xmlString ansi s, XmlChar c := by
+  intro c hc
+  unfold xmlString at hc
+  simp only at hc
+  split at hc
+  · unfold xmlStringNew at hc
+    have ⟨h1, h2⟩ := List.mem_filter.mp hc
+    have h3 := hsub _ _ h1
+    have ⟨_, h4⟩ := List.mem_filter.mp h3
+    refine valid_of c (by simpa using h2) ?_
+    have : Gen.junitNoncharsTested = Gen.junitNoncharsRemoved := by decide
+    rw [this]; simpa using h4
+  · rename_i hn
+    have hn' := hn
+    simp only [List.any_eq_true, not_exists, not_and, Bool.not_eq_true] at hn'
+    have := hn' c hc
+    unfold xmlStringNew at hc
+    have ⟨_, h2⟩ := List.mem_filter.mp hc
+    exact valid_of c (by simpa using h2) this
+
+/-- nothing is added, and nothing that XML allows is lost when the output holds no escape sequence (the stripper is the
+    identity): the stored text is the output without exactly the characters XML 1.0 forbids -/
+theorem xml_text_keeps_valid (s : List Char) : xmlString id s = s.filter (fun c => decide (XmlChar c)) := by
+  have key : ∀ c : Char, decide (XmlChar c) = (!inRanges Gen.xmlStringStripped c.toNat && !Gen.junitNoncharsRemoved.contains c.toNat) := by
+    intro c
+    have hv := c.valid
+    simp only [UInt32.isValidChar, Nat.isValidChar] at hv
+    have hv' : c.toNat < 0xD800 ∨ (0xDFFF < c.toNat ∧ c.toNat < 0x110000) := hv
+    clear hv
+    rw [Bool.eq_iff_iff]
+    rw [decide_eq_true_eq]
+    unfold XmlChar
+    generalize c.toNat = n at hv' ⊢
+    simp [inRanges, Gen.xmlStringStripped, Gen.junitNoncharsRemoved]
+    omega
+  unfold xmlString xmlStringNew
+  simp only [id]
+  split
+  · rw [List.filter_filter, List.filter_filter]
+    apply List.filter_congr
+    intro c _
+    rw [key c]
+    cases inRanges Gen.xmlStringStripped c.toNat <;> cases Gen.junitNoncharsRemoved.contains c.toNat <;> rfl
+  · rename_i hn
+    simp only [List.any_eq_true, not_exists, not_and, Bool.not_eq_true] at hn
+    apply List.filter_congr
+    intro c hc
+    rw [key c]
+    by_cases h1 : inRanges Gen.xmlStringStripped c.toNat = true
+    · simp [h1]
+    · have hm : c ∈ List.filter (fun c => !inRanges Gen.xmlStringStripped c.toNat) s := List.mem_filter.mpr ⟨hc, by simpa using h1⟩
+      have h2 := hn c hm
+      have : Gen.junitNoncharsTested = Gen.junitNoncharsRemoved := by decide
+      rw [this] at h2
+      have h1' : inRanges Gen.xmlStringStripped c.toNat = false := by simpa using h1
+      rw [h1', h2]; rfl
+
+/-- every text setter of a testcase or a rerun passes its argument through `xml_string`, and no quick-junit text setter is
+    called anywhere else in junit.rs (counted in the source on every run) -/
+theorem every_text_goes_through_xml_string :
+    Gen.junitSetterArms.1 = Gen.junitSetterArms.2 ∧ 0 < Gen.junitSetterArms.2 ∧ Gen.junitDirectSetters = [] := by decide
+
+-- not vacuous: output with a C0 control, U+FFFE and U+FFFF, and legal characters around them
+example : xmlString id ['a', '\x01', '\t', '\uFFFE', '<', '\uFFFF', '\uFFFD', '\n'] = ['a', '\t', '<', '\uFFFD', '\n'] := by decide
+
+end xmltext
 
 end NextestModel.C17
